@@ -229,7 +229,8 @@ class ProgBase(plumpy.Process):
         # (a program may use its own subclasses of the command classes: a command is what it is an instance of)
         Continue, Wait, Stop, Kill = (_MyContinue, _MyWait, _MyStop, _MyKill) if self.PROGRAM.get('own_commands') else (ps.Continue, ps.Wait, ps.Stop, ps.Kill)
         if kind == 'cont':
-            return Continue(self._next_fn(i), *copy.deepcopy(ret[1]), **copy.deepcopy(ret[2]))
+            # ('@NOCOPY' among the arguments: an object that cannot be copied -- the continuation is handed what the step named)
+            return Continue(self._next_fn(i), *[special(a) for a in copy.deepcopy(ret[1])], **{k: special(v) for k, v in copy.deepcopy(ret[2]).items()})
         if kind == 'wait':
             return Wait(self._next_fn(i), ret[1], copy.deepcopy(ret[2]))
         if kind == 'value':
